@@ -77,6 +77,7 @@ class WStream(object):
         self.resolve = False
         self.gone = False
         self.via = None         # C09: expected WCirc for via-circuit connects
+        self.iso = []           # isolation fields Tor repeats on every event of this stream
 
 
 # --------------------------------------------------------------------------------
@@ -401,6 +402,7 @@ class StateRun(object):
     def stream_line(self, s, extra=()):
         parts = ['%d' % s.id, s.status, '%d' % (s.circ.id if s.circ is not None else 0), '%s:%d' % s.target]
         parts.extend(extra)
+        parts.extend(s.iso)
         return ' '.join(parts)
 
     # ------------------------------------------------------------------ emission
@@ -593,6 +595,14 @@ class StateRun(object):
             if not from_socks and ch.chance(1, 8, 'torinternal'):
                 s.source = ('(Tor_internal)', 0)
                 extra = ['SOURCE_ADDR=(Tor_internal):0', 'PURPOSE=DIR_FETCH']
+        if ch.chance(1, 5, 'isofields'):
+            # the SOCKS isolation fields current Tors add to every STREAM event; quoted values may hold blanks
+            user = ch.pick(['alice', 'alice smith', '', 'a b c', 'x=y z'], 'isouser')
+            s.iso = ['SOCKS_USERNAME="%s"' % user, 'SOCKS_PASSWORD="%s"' % ch.pick(['pw', 'correct horse battery', ''], 'isopw'),
+                     'CLIENT_PROTOCOL=SOCKS5', 'NYM_EPOCH=%d' % ch.draw(3, 'isoepoch'), 'SESSION_GROUP=-%d' % (1 + ch.draw(9, 'isosg')),
+                     'ISO_FIELDS=SOCKS_USERNAME,SOCKS_PASSWORD,CLIENTADDR,SESSION_GROUP,NYM_EPOCH']
+            if ' ' in ''.join(s.iso[:2]):
+                self.sim.probe('stream-event-quoted-value-with-blank')
         self.streams[s.id] = s
         self.send_stream(s, extra)
         self.on_world_stream_new(s)
